@@ -9,8 +9,10 @@ value.
 Assumed semantics of the Python string operations that are modelled (assumption A10):
   format(int, '0N' / '0Nd' / 'N' / '0>N' / '' / 'd'), str(int)   decimal digits, '-' sign, zero padding as documented
   s[i], s[a:b], s + t, len(s), s == t, single-character ordering by code point, lexicographic ordering
-  c.isdigit()   true for '0'..'9', false for every other character below U+0080 (unknown but fixed above)
-  int(digits)   positional value of ASCII digits
+  c.isdigit()   exactly the code points for which the running interpreter's str.isdigit is true (table computed at
+                import from the interpreter itself: '0'..'9' and the Unicode No/Nd digit ranges above U+0080)
+  int(digits)   positional value of ASCII digits; int(c) of ONE character: its decimal value when c.isdecimal()
+                (same kind of table), ValueError otherwise
   s.lower()/upper() on ASCII (characters >= U+0080: Unsupported)
 """
 
@@ -24,7 +26,94 @@ from . import sym
 from .sym import And, Not, Or, SBool, SInt, Unsupported
 
 UNI_DIGIT = z3.Function("UNI_DIGIT", z3.IntSort(), z3.BoolSort())
+UNI_DECIMAL = z3.Function("UNI_DECIMAL", z3.IntSort(), z3.BoolSort())
+UNI_DECVAL = z3.Function("UNI_DECVAL", z3.IntSort(), z3.IntSort())
 MAX_CP = 0x10FFFF
+
+
+def _ranges(pred: Any) -> list[tuple[int, int]]:
+    out, start = [], None
+    for cp in range(128, MAX_CP + 2):
+        if cp <= MAX_CP and pred(chr(cp)):
+            if start is None:
+                start = cp
+        elif start is not None:
+            out.append((start, cp - 1))
+            start = None
+    return out
+
+
+_TABLES: dict[str, Any] = {}
+
+
+def _tables() -> dict[str, Any]:
+    """The interpreter's own isdigit / isdecimal tables above U+0080, as code point ranges; decimal ranges are cut
+    into blocks whose first character has value 0 so that the value is (cp - start) % 10 (checked here)."""
+    if not _TABLES:
+        _TABLES["digit"] = _ranges(str.isdigit)
+        dec = _ranges(str.isdecimal)
+        for a, b in dec:
+            for cp in range(a, b + 1):
+                if int(chr(cp)) != (cp - a) % 10:
+                    raise Unsupported(f"decimal digit block U+{a:04X}..U+{b:04X} is not a run of 0..9")
+        _TABLES["decimal"] = dec
+    return _TABLES
+
+
+def _define(c: Any) -> None:
+    """State, for the character term c, what the three tables say (added to the path at most once)."""
+    e = _eng()
+    if e is None or not isinstance(c, SInt):
+        return
+    t = c.t
+    d = _DEFNS.get(t.get_id())
+    if d is None:
+        tb = _tables()
+        dig = z3.Or(*[z3.And(t >= a, t <= b) for a, b in tb["digit"]])
+        dec = z3.Or(*[z3.And(t >= a, t <= b) for a, b in tb["decimal"]])
+        val = z3.And(*[z3.Implies(z3.And(t >= a, t <= b), UNI_DECVAL(t) == (t - a) % 10) for a, b in tb["decimal"]])
+        d = z3.And(UNI_DIGIT(t) == dig, UNI_DECIMAL(t) == dec, val)
+        _DEFNS[t.get_id()] = d
+        _KEEP.append(t)
+    did = d.get_id()
+    if any(p.get_id() == did for p in e.pc):
+        return
+    e.assume(SBool(d))
+
+
+def unicode_definitions(goal: list[Any]) -> list[Any]:
+    """Exact tables for every UNI_DIGIT / UNI_DECIMAL / UNI_DECVAL application occurring in a VC."""
+    found: dict[int, tuple[Any, set[str]]] = {}
+    seen: set[int] = set()
+    stack = list(goal)
+    while stack:
+        x = stack.pop()
+        i = x.get_id()
+        if i in seen:
+            continue
+        seen.add(i)
+        if z3.is_app(x):
+            if x.num_args() == 1 and x.decl().name() in ("UNI_DIGIT", "UNI_DECIMAL", "UNI_DECVAL"):
+                a = x.arg(0)
+                found.setdefault(a.get_id(), (a, set()))[1].add(x.decl().name())
+            stack.extend(x.children())
+        elif z3.is_quantifier(x):
+            stack.append(x.body())
+    out = []
+    if found:
+        tb = _tables()
+        for t, names in found.values():
+            if "UNI_DIGIT" in names:
+                out.append(UNI_DIGIT(t) == z3.Or(*[z3.And(t >= a, t <= b) for a, b in tb["digit"]]))
+            if "UNI_DECIMAL" in names:
+                out.append(UNI_DECIMAL(t) == z3.Or(*[z3.And(t >= a, t <= b) for a, b in tb["decimal"]]))
+            if "UNI_DECVAL" in names:
+                out.append(z3.And(*[z3.Implies(z3.And(t >= a, t <= b), UNI_DECVAL(t) == (t - a) % 10) for a, b in tb["decimal"]]))
+    return out
+
+
+_DEFNS: dict[int, Any] = {}
+_KEEP: list[Any] = []  # keeps the terms alive so that ids are not reused
 
 
 def _eng() -> Any:
@@ -157,7 +246,12 @@ class SymStr:
         for c in self.chars:
             cc = code(c)
             if not eng.truth(And(cc >= 48, cc <= 57)):
-                raise Unsupported("int() of a symbolic character that is not provably an ASCII digit")
+                if len(self.chars) != 1:
+                    raise Unsupported("int() of several symbolic characters that are not provably ASCII digits")
+                _define(cc)
+                if eng.truth(And(cc >= 128, sym.mk_bool(UNI_DECIMAL(cc.t)))):
+                    return SInt(UNI_DECVAL(cc.t))
+                eng.raise_(ValueError, "invalid literal for int() with base 10")
             v = v * 10 + (cc - 48)
         return v
 
@@ -202,6 +296,8 @@ class SymStr:
 def is_digit_char(c: Any) -> Any:
     if isinstance(c, str):
         return c.isdigit()
+    # UNI_DIGIT stays uninterpreted while paths are explored (an over-approximation: more paths, never fewer); every
+    # VC that mentions it is discharged with its exact table (unicode_definitions, called from verify.discharge)
     return Or(And(c >= 48, c <= 57), And(c >= 128, sym.mk_bool(UNI_DIGIT(c.t))))
 
 
